@@ -268,7 +268,9 @@ static std::string jac_calls(F && f, bool acc_only_ok)
   }
   {
     // both outputs live inside one larger pre-filled matrix (outer stride != rows)
-    Eigen::Matrix<S, 2 * DOF + 1, DOF * NB + 1> box = Eigen::Matrix<S, 2 * DOF + 1, DOF * NB + 1>::Constant(kJunk);
+    // (a one-row Jacobian, Dof = 1, is a row vector: its block must come from a row-major matrix to have inner stride 1)
+    using Box = Eigen::Matrix<S, 2 * DOF + 1, DOF * NB + 1, DOF == 1 ? Eigen::RowMajor : Eigen::ColMajor>;
+    Box box   = Box::Constant(kJunk);
     auto bv                                         = box.template block<DOF, DOF * NB>(0, 1);
     auto ba                                         = box.template block<DOF, DOF * NB>(DOF + 1, 0);
     const Jac J                                     = f(2, OJ(Eigen::Ref<Jac>(bv)), OJ(Eigen::Ref<Jac>(ba)));
